@@ -1,9 +1,30 @@
 package main
 
 import (
+	"encoding/json"
+	"fmt"
 	"go/ast"
 	"go/token"
+	"os"
+	"path/filepath"
+	"strings"
 )
+
+// overlayPath: the file a repository path resolves to under VERIF_OVERLAY (as Gen.Parse does).
+func (g *Gen) overlayPath(rel string) string {
+	path := filepath.Join(g.Repo, rel)
+	if ov := os.Getenv("VERIF_OVERLAY"); ov != "" {
+		if b, err := os.ReadFile(ov); err == nil {
+			var o struct{ Replace map[string]string }
+			if json.Unmarshal(b, &o) == nil {
+				if r, ok := o.Replace[path]; ok && r != "" {
+					return r
+				}
+			}
+		}
+	}
+	return path
+}
 
 // C20, reader-construction layer of the skip indexes (model OG/C20/SkipIdx.lean): which keys
 // BloomFilterIndexReader.ReInit puts into splitMap, which schema field names the filter file it
@@ -90,6 +111,21 @@ func genC20Idx(g *Gen) error {
 		return true
 	})
 	g.StrList("bfReInitReaderCalls", calls)
+	// the C++ write-side tokenizer of the text index (not Go: the text of NextBatch, blanks squeezed)
+	cpp, err := os.ReadFile(g.overlayPath("engine/index/textindex/FullTextIndex.cpp"))
+	if err != nil {
+		return err
+	}
+	body := string(cpp)
+	if i := strings.Index(body, "bool SimpleGramTokenizer::NextBatch"); i >= 0 {
+		body = body[i:]
+		if j := strings.Index(body, "\nint32_t FullTextIndex::Init"); j >= 0 {
+			body = body[:j]
+		}
+	} else {
+		return fmt.Errorf("FullTextIndex.cpp: SimpleGramTokenizer::NextBatch not found")
+	}
+	g.P("def src_txCppNextBatch : String := %s", leanStr(strings.Join(strings.Fields(body), " ")))
 	for _, f := range [][3]string{
 		{sk + "bloom_filter_index.go", "BloomFilterIndexReader.ReInit", "bfReInit"},
 		{sk + "bloom_filter_index.go", "NewBloomFilterIndexReader", "bfNewBloomFilterIndexReader"},
@@ -104,6 +140,23 @@ func genC20Idx(g *Gen) error {
 		{bf + "filter_reader.go", "FilterReader.getAllHashes", "filterGetAllHashes"},
 		{bf + "filter_reader.go", "CreateFilterReader", "bfCreateFilterReader"},
 		{bf + "multi_field_filter_reader.go", "NewMultiFiledLineFilterReader", "multiNewMultiFiledLineFilterReader"},
+		{bf + "filter_ip_reader.go", "LineFilterIpReader.hitExpr", "ipHitExpr"},
+		{bf + "filter_ip_reader.go", "LineFilterIpReader.isIndexedAtom", "ipIsIndexedAtom"},
+		{bf + "filter_ip_reader.go", "LineFilterIpReader.hitIp", "ipHitIp"},
+		{bf + "filter_ip_reader.go", "LineFilterIpReader.hitIpSubnet", "ipHitIpSubnet"},
+		{bf + "filter_ip_reader.go", "NewLineFilterIpReader", "ipNewLineFilterIpReader"},
+		{"lib/tokenizer/tokenizer_ip.go", "IpTokenizer.HashWithMaskIndex", "ipHashWithMaskIndex"},
+		{"lib/tokenizer/tokenizer_ip.go", "IpTokenizer.GetMatchedMaskIndex", "ipGetMatchedMaskIndex"},
+		{"lib/tokenizer/tokenizer_ip.go", "IpTokenizer.Next", "ipTokNext"},
+		{"lib/tokenizer/tokenizer_ip.go", "IpTokenizer.ProcessTokenizerBatch", "ipProcessTokenizerBatch"},
+		{"lib/tokenizer/tokenizer_ip.go", "init", "ipTokInit"},
+		{sk + "bloom_filter_ip_index.go", "BloomFilterIpReaderCreator.CreateSKFileReader", "ipCreateSKFileReader"},
+		{sk + "bloom_filter_ip_index.go", "BloomFilterIpIndexWriter.GenBloomFilterData", "ipGenBloomFilterData"},
+		{"engine/index/textindex/textindex_reader.go", "TextIndexFilterReader.IsExist", "txIsExist"},
+		{"engine/index/textindex/textindex_reader.go", "TextIndexFilterReaders.IsExist", "txReadersIsExist"},
+		{"engine/index/textindex/textindex_reader.go", "TextIndexReader.ReInit", "txReInit"},
+		{"engine/index/textindex/textindex.go", "PartHeader.Contain", "txPartHeaderContain"},
+		{"lib/tokenizer/tokenizer.go", "StandardTokenizer.Split", "txStandardSplit"},
 		{bf + "filter_reader.go", "FilterReader.IsExist", "filterIsExist"},
 		{bf + "filter_reader.go", "NewFilterReader", "filterNewFilterReader"},
 		{bf + "filter_reader.go", "VerticalFilterReader.hitExpr", "vertHitExpr"},
